@@ -1,54 +1,60 @@
 /-
 L6: `DecayChainViewer._build_decay_graph` (decay/viewer.py): the nodes and edges added to the
-graph, with the process-wide counter threaded as state.  Import-free.
+graph, with the process-wide counter threaded as state.  Node `k` is the DOT node `dec<k>`; the root
+node is `mother`.  Import-free.
 -/
 import DL.Model.Chain
 namespace DL
 
 structure GNode where
-  id : String
+  id : Nat                 -- `dec<id>`
   cells : List String      -- names shown, in order
-  ports : Bool             -- table with PORT tags (node with sub-chains, or the root)
+  ports : Bool             -- table with PORT tags p0, p1, … (a line with at least one sub-chain)
   deriving Repr, DecidableEq, Inhabited
 
 structure GEdge where
-  src : String             -- "mother", "decN" or "decN:pI"
-  dst : String
+  src : Option (Nat × Nat) -- `none`: from the root `mother`; `some (k, i)`: from `dec<k>:p<i>`
+  dst : Nat
   label : String
-  deriving Repr, DecidableEq, Inhabited
-
-structure Graph where
-  nodes : List GNode
-  edges : List GEdge
   deriving Repr, DecidableEq, Inhabited
 
 def hasSub {β : Type} (fs : List (Item β)) : Bool := fs.any fun | .inr _ => true | .inl _ => false
 
 mutual
-  /-- `iterate_chain(subchain, top_node, link_pos)`; `β → String` gives the edge label `str(bf)` -/
-  def iterChain {β : Type} (lbl : β → String) (src : String) :
-      List (CMode β) → Nat → Graph → Graph × Nat
-    | [], n, g => (g, n)
-    | (i, fs) :: rest, n, g =>
-      let ref := "dec" ++ toString n
-      let node : GNode := { id := ref, cells := fs.map Item.name, ports := hasSub fs }
-      let g1 : Graph := { nodes := g.nodes ++ [node], edges := g.edges ++ [{ src := src, dst := ref, label := lbl i }] }
-      let (g2, n2) := iterFs lbl ref fs 0 (n + 1) g1
-      iterChain lbl src rest n2 g2
-  def iterFs {β : Type} (lbl : β → String) (ref : String) :
-      List (Item β) → Nat → Nat → Graph → Graph × Nat
-    | [], _, n, g => (g, n)
-    | .inl _ :: r, pos, n, g => iterFs lbl ref r (pos + 1) n g
-    | .inr c :: r, pos, n, g =>
-      let (g1, n1) := iterSub lbl (ref ++ ":p" ++ toString pos) c n g
-      iterFs lbl ref r (pos + 1) n1 g1
-  def iterSub {β : Type} (lbl : β → String) (src : String) : Chain β → Nat → Graph → Graph × Nat
-    | .mk _ modes, n, g => iterChain lbl src modes n g
+  /-- `iterate_chain(subchain, top_node, link_pos)`: the nodes and edges created, in creation order,
+      and the counter afterwards; `lbl` gives the edge label `str(bf)` -/
+  def iterChain {β : Type} (lbl : β → String) (src : Option (Nat × Nat)) :
+      List (CMode β) → Nat → (List GNode × List GEdge) × Nat
+    | [], n => (([], []), n)
+    | (i, fs) :: rest, n =>
+      let node : GNode := { id := n, cells := fs.map Item.name, ports := hasSub fs }
+      let edge : GEdge := { src := src, dst := n, label := lbl i }
+      let ((ns1, es1), n1) := iterFs lbl n fs 0 (n + 1)
+      let ((ns2, es2), n2) := iterChain lbl src rest n1
+      ((node :: ns1 ++ ns2, edge :: es1 ++ es2), n2)
+  /-- the loop over the daughters of the line drawn as node `ref`, `pos` = position of the daughter -/
+  def iterFs {β : Type} (lbl : β → String) (ref : Nat) :
+      List (Item β) → Nat → Nat → (List GNode × List GEdge) × Nat
+    | [], _, n => (([], []), n)
+    | .inl _ :: r, pos, n => iterFs lbl ref r (pos + 1) n
+    | .inr c :: r, pos, n =>
+      let ((ns1, es1), n1) := iterSub lbl (some (ref, pos)) c n
+      let ((ns2, es2), n2) := iterFs lbl ref r (pos + 1) n1
+      ((ns1 ++ ns2, es1 ++ es2), n2)
+  def iterSub {β : Type} (lbl : β → String) (src : Option (Nat × Nat)) :
+      Chain β → Nat → (List GNode × List GEdge) × Nat
+    | .mk _ modes, n => iterChain lbl src modes n
 end
 
-/-- the whole graph of one viewer: the root node `mother`, then the lines; counter in, counter out -/
+structure Graph where
+  root : String            -- the cell of the root node `mother`
+  nodes : List GNode
+  edges : List GEdge
+  deriving Repr, DecidableEq, Inhabited
+
+/-- the whole graph of one viewer; counter in, counter out -/
 def viewerGraph {β : Type} (lbl : β → String) (c : Chain β) (counter : Nat) : Graph × Nat :=
-  let root : GNode := { id := "mother", cells := [c.mother], ports := true }
-  iterChain lbl "mother" c.modes counter { nodes := [root], edges := [] }
+  let ((ns, es), n) := iterChain lbl none c.modes counter
+  ({ root := c.mother, nodes := ns, edges := es }, n)
 
 end DL
